@@ -10,7 +10,7 @@ explicit policy clauses of the statement are checked directly.
 import gc
 
 from traits.api import (Any, Constant, Event, HasPrivateTraits,
-                        HasStrictTraits, HasTraits, Int, List, ReadOnly, Str,
+                        HasStrictTraits, HasTraits, Int, List, Map, ReadOnly, Str,
                         TraitError, Undefined)
 
 LEVEL = "model_checking"
@@ -107,6 +107,8 @@ def events():
     # an instance List trait brings a companion "<name>_items" event trait;
     # removing the List trait removes the companion too
     evs += [("add_trait_list", "b"), ("get_items", "b"), ("set_items", "b")]
+    # ... and a mapped instance trait a shadow "<name>_"
+    evs += [("add_trait_map", "b"), ("get_shadow", "b"), ("set_shadow", "b")]
     # the base class gains a wildcard its (already defined) subclass
     # declares itself: the subclass's own rule stays
     evs.append(("base_adds_wildcard",))
@@ -176,6 +178,16 @@ class Side:
                 o.add_trait(n, List(Int))
                 self.inst[ev[1]] = True
                 return ("ok",)
+            if k == "add_trait_map":
+                o.add_trait(n, Map({"a": 1, "b": 2}))
+                self.inst[ev[1]] = True
+                return ("ok",)
+            if k == "get_shadow":
+                v = getattr(o, n + "_")
+                return ("value", repr(v))
+            if k == "set_shadow":
+                setattr(o, n + "_", 5)
+                return ("ok",)
             if k == "get_items":
                 v = getattr(o, n + "_items")
                 return ("value", repr(v))
@@ -225,9 +237,9 @@ def enabled(model, ev):
         return model.has_sub and not getattr(model, "base_wild", False)
     if ev[1] == "s" and not model.has_sub:
         return False
-    if ev[0] == "add_trait_list":
+    if ev[0] in ("add_trait_list", "add_trait_map"):
         return not model.inst[ev[1]]
-    if ev[0] in ("get_items", "set_items"):
+    if ev[0] in ("get_items", "set_items", "get_shadow", "set_shadow"):
         return True
     if ev[0] == "add_trait":
         return not model.inst[ev[1]]
@@ -245,10 +257,16 @@ def check_policy(ctx, model, ev, out, bad):
         ctx.outcome("subclass-defined-late")
         return
     if k in ("add_trait2", "add_trait_list", "get_items", "set_items",
-             "base_adds_wildcard"):
+             "base_adds_wildcard", "add_trait_map", "get_shadow",
+             "set_shadow"):
         return          # (decided by the twin comparison)
     how, f = model.gov(ev[1])
-    if how == "instance" and f == "List":
+    if how == "instance" and f in ("List", "Map"):
+        if f == "Map" and k == "set":
+            ctx.outcome("instance-trait-governed")
+            if out[0] != "TraitError":
+                bad("instance-trait-not-governing", "an instance Map trait "
+                    "was added but %r was accepted" % (ev[2],))
         return
     name = model.name
     if how == "instance" and f == "Int":
@@ -351,8 +369,10 @@ def run_history(ctx, kind, name, hist):
         ctx.tr()
         o1 = real.do(ev)
         o2 = twin.do(ev)
-        if ev[0] in ("get_items", "set_items") and \
-                model.inst[ev[1]] != "List":
+        if (ev[0] in ("get_items", "set_items") and
+                model.inst[ev[1]] != "List") or \
+                (ev[0] in ("get_shadow", "set_shadow") and
+                 model.inst[ev[1]] != "Map"):
             keep, real.b = real.b, ctl
             try:
                 o3 = real.do(ev)
@@ -361,9 +381,10 @@ def run_history(ctx, kind, name, hist):
             if o3 != o1:
                 ctx.violation(
                     "C13:items-companion:%s:%s:%s" % (kind, name, ev[0]),
-                    "%r on %r_items gives %r although the instance has no "
-                    "List instance trait (any more); an instance that never "
-                    "had one gives %r" % (ev, name, o1, o3), kind=kind,
+                    "%r on the companion name of %r gives %r although the "
+                    "instance has no List / mapped instance trait (any "
+                    "more); an instance that never had one gives %r"
+                    % (ev, name, o1, o3), kind=kind,
                     name=name, history=hist, real=repr(o1), twin=repr(o3))
                 return False, None
         trace.append((ev, o1))
@@ -399,6 +420,8 @@ def run_history(ctx, kind, name, hist):
             model.inst[ev[1]] = "Int"
         if ev[0] == "add_trait_list":
             model.inst[ev[1]] = "List"
+        if ev[0] == "add_trait_map":
+            model.inst[ev[1]] = "Map"
         if ev[0] == "base_adds_wildcard":
             model.base_wild = True
         if ev[0] == "remove_trait":
